@@ -376,7 +376,9 @@ pub fn analyse(rep: &RunReport) -> Verdict {
         }
         // what an operation captured (closure, future, anything that borrows the value) is destroyed before the next operation on the
         // object starts: its slot is not released while any of it is alive
-        if r.kind.has_body() && r.fin_kind == FinKind::Normal && !panicked_obj(r.obj) {
+        // (a `Desync` promises this for the `&mut T` it hands out; at the bare-queue level `future_sync` destroys the caller's future after
+        // the slot has been released, and no borrow is involved there)
+        if r.kind.has_body() && r.fin_kind == FinKind::Normal && !panicked_obj(r.obj) && r.obj.map_or(false, |o| !world.objs[o].is_raw) {
             if let (Some(f), Some(d), Some(o)) = (r.fin, r.closure_drop_at, r.obj) {
                 if let Some(y) = ops.iter().filter(|y| y.id != r.id && y.obj == Some(o) && y.kind.has_body() && y.start.map_or(false, |s| s > f && s < d)).min_by_key(|y| y.start) {
                     v(&mut out, "C14", "operation_state_outlived_its_slot", &[r.id, y.id], y.start.unwrap_or(0), format!("{} {} on object {} had finished, but what it had captured was destroyed only after {} {} had started on the same object", r.tag, r.id, o, y.tag, y.id));
